@@ -58,7 +58,13 @@ def report_obj(ro):
     if ro.xml.find('roCreate') is None:
         return 'norc'
     t_us = lambda d: 'V%d' % us(d)
+    def tagtext(fn):
+        try:
+            return X.s_tok(fn())
+        except Exception as e:
+            return 'E' + type(e).__name__
     out = ['completed=%d' % (1 if ro.completed else 0),
+           'roid=' + tagtext(lambda: ro.ro_id), 'roslug=' + tagtext(lambda: ro.ro_slug),
            'start=' + acc(lambda: ro.start_time, t_us),
            'end=' + acc(lambda: ro.end_time, t_us),
            'duration=' + acc(lambda: ro.duration, ticks),
